@@ -168,6 +168,11 @@ func runLifeDevice(c jLifeDevice) (res jLifeDevResult) {
 	}
 	aborted := false
 	for i, e := range c.Events {
+		// pacing: an autorepeat event (value 2, ignored by the device) of key code 0 stands for "the stream is quiet for 25 ms here"
+		// (two LED refresh cycles), so that the NEXT event is processed right after LED frames with no event in between
+		if e.T == "k" && e.Val == 2 && e.Code == 0 {
+			time.Sleep(25 * time.Millisecond)
+		}
 		if !send(mkEvent(e)) || !send(synEvent()) {
 			res.PanicAt = i
 			aborted = true
